@@ -286,13 +286,23 @@ impl Walrus {
             debug_print!("[recovery] file {}", file_path);
 
             let mut block_offset: u64 = 0;
+            // Units that look empty so far. A unit is handed out (and consumes a block
+            // id) whether or not it is ever written, so an empty unit that is followed
+            // by a used one was an allocated block; trailing empty units were never
+            // handed out and must not shift the ids of the next file's blocks.
+            let mut empty_units: usize = 0;
             while block_offset + DEFAULT_BLOCK_SIZE <= MAX_FILE_SIZE {
-                // heuristic: if first bytes are zero, assume no more blocks
+                // A unit whose first bytes are zero holds no block; later units of the
+                // file may still be in use
                 let mut probe = [0u8; 8];
                 mmap.read(block_offset as usize, &mut probe);
                 if probe.iter().all(|&b| b == 0) {
-                    break;
+                    block_offset += DEFAULT_BLOCK_SIZE;
+                    empty_units += 1;
+                    continue;
                 }
+                next_block_id += empty_units;
+                empty_units = 0;
 
                 let mut used: u64 = 0;
                 let mut entries_in_block: u64 = 0;
@@ -316,7 +326,9 @@ impl Walrus {
                 let md: Metadata = match archived.deserialize(&mut rkyv::Infallible) {
                     Ok(m) => m,
                     Err(_) => {
-                        break;
+                        block_offset += DEFAULT_BLOCK_SIZE;
+                        next_block_id += 1;
+                        continue;
                     }
                 };
                 let col_name = md.owned_by;
@@ -345,7 +357,9 @@ impl Walrus {
                     }
                 }
                 if used == 0 {
-                    break;
+                    block_offset += DEFAULT_BLOCK_SIZE;
+                    next_block_id += 1;
+                    continue;
                 }
 
                 let block = Block {
